@@ -329,6 +329,28 @@ def run_mc(module, workdir, workers=8, timeout=1800, env=None, extra=(), cfg=Non
     return {"module": module, "states": dist, "transitions": gen, "wall_s": round(dt, 1), "tags": parse_tagged(out)}
 
 
+def run_tlapm(module, workdir, timeout=900):
+    """TLAPS proof of an unbounded lemma (optional strengthening; an incomplete proof is a tool error)"""
+    os.makedirs(workdir, exist_ok=True)
+    cache = os.path.join(workdir, "tlacache")
+    t0 = time.time()
+    try:
+        p = subprocess.run(["tlapm", "--threads", "4", "--cache-dir", cache, module + ".tla"], cwd=SPEC,
+                           capture_output=True, text=True, timeout=timeout)
+    except subprocess.TimeoutExpired:
+        raise ToolError("tlapm timed out on %s" % module)
+    out = p.stdout + p.stderr
+    m = re.search(r"All (\d+) obligations? proved", out)
+    f = re.search(r"(\d+)/(\d+) obligations failed", out)
+    shutil.rmtree(os.path.join(SPEC, ".tlacache"), ignore_errors=True)
+    if m:
+        n = int(m.group(1))
+        return {"module": module, "obligations": n, "proved": n, "wall_s": round(time.time() - t0, 1)}
+    if f:
+        return {"module": module, "obligations": int(f.group(2)), "proved": int(f.group(2)) - int(f.group(1)), "wall_s": round(time.time() - t0, 1)}
+    raise ToolError("tlapm failed on %s: %s" % (module, out[-1500:]))
+
+
 def scenario_hash(sc):
     d = {"cfg": sc["cfg"], "calls": sc["calls"], "fault": sc.get("fault"), "faults": sc.get("faults")}
     return hashlib.sha1(json.dumps(d, sort_keys=True).encode()).hexdigest()[:12]
